@@ -4,32 +4,38 @@ package main
 
 func init() {
 	obs := []Ob{
-		{ID: "E8.enc.fragment-raw", Fn: "op.setFragment", P: []string{"uri", "params"}, Kind: "store", Pat: "store($uri.RawFragment, $params.Encode())", Max: 1},
-		{ID: "E8.enc.fragment-consistent", Fn: "op.setFragment", P: []string{"uri", "params"}, Kind: "store", Pat: "store($uri.Fragment, res(0, url.PathUnescape($uri.RawFragment)))", Max: 1,
-			Why: "URL.String() emits RawFragment only while it is a valid encoding of Fragment under path-unescaping; any other decoder makes it re-escape the decoded value"},
+		{ID: "E8.enc.fragment-raw", Fn: "op.setFragment", P: []string{"uri", "params"}, Kind: "store", Pat: "store($uri.RawFragment, $enc)", Max: 1,
+			Req: []string{"same($enc, $params.Encode()) || def($enc, $params.Encode())"}},
+		{ID: "E8.enc.fragment-consistent", Fn: "op.setFragment", P: []string{"uri", "params"}, Kind: "store", Pat: "store($uri.Fragment, res(0, url.PathUnescape($v)))", Max: 1,
+			Why: "URL.String() emits RawFragment only while it is a valid encoding of Fragment under path-unescaping; any other decoder makes it re-escape the decoded value",
+			Req: []string{"same($v, $uri.RawFragment) || eq($uri.RawFragment, $v)"}},
 		{ID: "E8.enc.fragment-single-writer", Fn: "op.setFragment", P: []string{"uri", "params"}, Kind: "store", Pat: "store($uri.Fragment, _)", Max: 1},
 		{ID: "E8.enc.fragment-returns-uri", Fn: "op.setFragment", P: []string{"uri", "params"}, Kind: "ret any", Pat: "ret($uri.String())", Max: 1},
 		{ID: "E8.merge.keeps-existing", Fn: "op.mergeQueryParams", P: []string{"uri", "params"}, Kind: "store", Pat: "store($uri.RawQuery, $q.Encode())", Max: 1,
 			Why: "query parameters already present in the registered redirect URI are preserved",
 			Req: []string{"def($q, $uri.Query())"}},
-		{ID: "E8.merge.adds", Fn: "op.mergeQueryParams", P: []string{"uri", "params"}, Kind: "call", Pat: "$q.Add($param, $value)", Max: 1,
+		{ID: "E8.merge.adds.add", AltOf: "E8.merge.adds", Fn: "op.mergeQueryParams", P: []string{"uri", "params"}, Kind: "call", Pat: "$q.Add($param, $value)", Max: 1,
+			Why: "every value of every response parameter is appended to (never replaces) the query of the registered URI",
 			Req: []string{"def($q, $uri.Query())", "inloop($value, $values)", "inloop($values, $params)"}},
+		{ID: "E8.merge.adds.append", AltOf: "E8.merge.adds", Fn: "op.mergeQueryParams", P: []string{"uri", "params"}, Kind: "store", Pat: "store($q[$name], append($q[$name], $values))", Max: 1,
+			Req: []string{"def($q, $uri.Query())", "inloop($values, $params)"}},
 		{ID: "E8.merge.no-set", Fn: "op.mergeQueryParams", Kind: "call", Pat: "_.Set(__)", Forbid: true, Why: "Set would replace a parameter of the registered URI"},
 		{ID: "E8.merge.returns-uri", Fn: "op.mergeQueryParams", P: []string{"uri", "params"}, Kind: "ret any", Pat: "ret($uri.String())", Max: 1},
 		// response mode selection
-		{ID: "E1.mode.query", Fn: "op.AuthResponseURL", P: []string{"redirectURI", "responseType", "responseMode", "response", "encoder"}, Kind: "ret ok", Pat: "ret(op.mergeQueryParams($uri, $params), nil)", Min: 2, Max: 2,
+		{ID: "E1.mode.query", Fn: "op.AuthResponseURL", P: []string{"redirectURI", "responseType", "responseMode", "response", "encoder"}, Kind: "ret ok", Pat: "ret(op.mergeQueryParams($uri, $params), nil)",
 			Req: []string{"def($uri, url.Parse($redirectURI), 0)", "ok(url.Parse($redirectURI))", "def($params, httphelper.URLEncodeParams($response, $encoder), 0)", "ok(httphelper.URLEncodeParams($response, $encoder))",
 				"eq($responseMode, oidc.ResponseModeQuery) || (neq($responseMode, oidc.ResponseModeFragment) && neq($responseType, oidc.ResponseTypeIDToken) && neq($responseType, oidc.ResponseTypeIDTokenOnly))"}},
-		{ID: "E1.mode.fragment", Fn: "op.AuthResponseURL", P: []string{"redirectURI", "responseType", "responseMode", "response", "encoder"}, Kind: "ret ok", Pat: "ret(op.setFragment($uri, $params), nil)", Min: 2, Max: 2,
+		{ID: "E1.mode.fragment", Fn: "op.AuthResponseURL", P: []string{"redirectURI", "responseType", "responseMode", "response", "encoder"}, Kind: "ret ok", Pat: "ret(op.setFragment($uri, $params), nil)",
 			Req: []string{"def($uri, url.Parse($redirectURI), 0)", "def($params, httphelper.URLEncodeParams($response, $encoder), 0)", "ok(httphelper.URLEncodeParams($response, $encoder))",
 				"neq($responseMode, oidc.ResponseModeQuery)",
 				"eq($responseMode, oidc.ResponseModeFragment) || eq($responseType, oidc.ResponseTypeIDToken) || eq($responseType, oidc.ResponseTypeIDTokenOnly)"}},
-		{ID: "E1.mode.only", Fn: "op.AuthResponseURL", Kind: "ret ok", Max: 4},
+		{ID: "E1.mode.only", Fn: "op.AuthResponseURL", Kind: "ret ok", Nots: []string{"ret(op.mergeQueryParams(__), nil)", "ret(op.setFragment(__), nil)"}, Forbid: true,
+			Why: "a response URL is produced by one of the two mode writers only"},
 		// form post
-		{ID: "E8.form.values", Fn: "op.AuthResponseFormPost", P: []string{"res", "redirectURI", "response", "encoder"}, Kind: "call", Pat: "op.formPostTmpl.Execute(&$buf, &_{RedirectURI: $redirectURI, Params: $values})", Max: 1,
+		{ID: "E8.form.values", Fn: "op.AuthResponseFormPost", P: []string{"res", "redirectURI", "response", "encoder"}, Kind: "call", Pat: "op.formPostTmpl.Execute($w, &_{RedirectURI: $redirectURI, Params: $values})", Max: 1,
 			Req: []string{"ok($encoder.Encode($response, $values))", "def($values, make(__))"}},
 		{ID: "E8.form.written-after-render", Fn: "op.AuthResponseFormPost", P: []string{"res", "redirectURI", "response", "encoder"}, Kind: "call", Pat: "$buf.WriteTo($res)", Max: 1,
-			Req: []string{"ok(op.formPostTmpl.Execute(&$buf, _))"}},
+			Req: []string{"ok(op.formPostTmpl.Execute(&$buf, _)) || ok(op.formPostTmpl.Execute($buf, _))"}},
 		{ID: "E8.form.code-response", Fn: "op.AuthResponseCode", Kind: "call", Pat: "op.AuthResponseFormPost(_, $authReq.GetRedirectURI(), &$resp, _)", Max: 1,
 			Req: []string{"eq($authReq.GetResponseMode(), oidc.ResponseModeFormPost)", "def($resp, _{Code: $code, State: $authReq.GetState(), SessionState: $ss})", "def($code, op.CreateAuthRequestCode(__), 0)"}},
 		{ID: "E8.encoder.provider", Fn: "op.NewProvider", Kind: "store", Pat: "store($o.encoder, oidc.NewEncoder())", Max: 1},
